@@ -49,22 +49,18 @@ def static_occ(case):
     return n_mos_of(case["atoms"], case["basis"]), na, nb
 
 
-def _valid_active(act, n_occ_hi, n_occ_lo):
-    """act: active MO indices of one restricted reference. n_occ_hi = number of MOs with any occupation,
-    n_occ_lo = number of doubly occupied MOs."""
-    ne = sum(2 if i < n_occ_lo else (1 if i < n_occ_hi else 0) for i in act)
-    return 0 < ne < 2 * len(act)
-
-
 def _admissible(kind, atoms, p):
     q, s = p
+    # One-electron systems are left out: PySCF returns its HF1e object without stored two-electron integrals
+    # (mean_field._eri is None), which Tangelo's UHF integral code and FCISolver.simulate cannot handle (AttributeError);
+    # that is outside the properties checked with this generator (recorded as an observation in the C08/C13 reports).
+    if n_elec_of(atoms, q) <= 1:
+        return False
     if kind == "rhf":
         return s == 0
     if kind == "rohf":
         return s > 0
-    # UHF on a one-electron system is left out: PySCF returns its HF1e object without two-electron integrals and
-    # Tangelo's UHF integral code cannot handle that (outside the properties checked with this generator)
-    return n_elec_of(atoms, q) > 1
+    return True
 
 
 @st.composite
